@@ -343,6 +343,56 @@ func r10HandleRequest(c *Ctx, rule string, hr *ssa.Function) {
 				c.R.Ok(rule, fname, "pre-auth call "+shortCallee(name), c.pos(call.Pos()), "on the pre-authentication allow-list", false)
 				return
 			}
+			// an unexported helper of this package is as good as its body: everything it calls (transitively, three
+			// levels) must itself be on the allow-list and it must send nothing
+			if callee := call.Common().StaticCallee(); callee != nil && callee.Blocks != nil && FuncPkgPathOf(callee) == PkgServer {
+				var safe func(f *ssa.Function, d int) bool
+				seenF := map[*ssa.Function]bool{}
+				safe = func(f *ssa.Function, d int) bool {
+					if seenF[f] {
+						return true
+					}
+					seenF[f] = true
+					if d > 3 {
+						return false
+					}
+					okAll := true
+					EachCall(f, func(c2 ssa.CallInstruction) {
+						n2 := CalleeName(c2)
+						if n2 == "" {
+							if c2.Common().IsInvoke() || c2.Common().StaticCallee() == nil {
+								// dynamic call: only builtins / func values from parameters are tolerated when nothing module-level can be reached
+								if _, isB := c2.Common().Value.(*ssa.Builtin); !isB {
+									okAll = false
+								}
+							}
+							return
+						}
+						if !strings.HasPrefix(n2, "Havoc/") && !strings.HasPrefix(n2, "(*Havoc/") && !strings.HasPrefix(n2, "(Havoc/") {
+							return
+						}
+						switch {
+						case strings.HasPrefix(n2, "Havoc/pkg/logger."), strings.HasPrefix(n2, "Havoc/pkg/colors."):
+						case gated[n2], n2 == "(*Havoc/cmd/server.Teamserver).SendEvent", n2 == "(*Havoc/cmd/server.Teamserver).RemoveClient":
+							okAll = false
+						case preAuthOK[n2], preAuthEvents[n2]:
+						default:
+							if g := c2.Common().StaticCallee(); g != nil && g.Blocks != nil && FuncPkgPathOf(g) == PkgServer {
+								if !safe(g, d+1) {
+									okAll = false
+								}
+							} else {
+								okAll = false
+							}
+						}
+					})
+					return okAll
+				}
+				if safe(callee, 1) {
+					c.R.Ok(rule, fname, "pre-auth call "+shortCallee(name), c.pos(call.Pos()), "helper of this package whose body calls only allow-listed functions and sends nothing", true)
+					return
+				}
+			}
 			c.R.Bad(rule, fname, "pre-auth call "+shortCallee(name), c.pos(call.Pos()), "module function called before authentication that is not on the allow-list {CreatePackage, ListOfUsernames, ClientAuthenticate, SendEvent(<error reply>), RemoveClient, logging}")
 		})
 	}
@@ -812,8 +862,12 @@ func R10PreAuthAssert(c *Ctx) {
 // r10OwnID: v is handleRequest's own id parameter (possibly captured by the closure fn).
 func r10OwnID(hr, fn *ssa.Function, v ssa.Value) bool {
 	var idParam *ssa.Parameter
+	// the connection id: handleRequest's only string parameter (not matched by name)
 	for _, p := range hr.Params {
-		if p.Name() == "id" {
+		if b, ok := p.Type().Underlying().(*types.Basic); ok && b.Kind() == types.String {
+			if idParam != nil {
+				return false
+			}
 			idParam = p
 		}
 	}
